@@ -1,7 +1,7 @@
 (* C18 - Rollback restores, commit keeps: the auditable store is atomic over
    any history.  Property theorems only; proofs are in Auditable/Proofs.v. *)
 From RV Require Import Auditable.Model Auditable.Proofs Auditable.Batch Auditable.BatchProofs.
-From RV Require Import Auditable.OverStore Auditable.OverStoreProofs Auditable.OverMemory Auditable.OverMemoryProofs.
+From RV Require Import Auditable.SpecExt Auditable.OverStore Auditable.OverStoreProofs Auditable.OverMemory Auditable.OverMemoryProofs.
 
 (* Two wrappers over one store, any interleaving: after every add/remove the
    store is the set the operation prescribes, after commit it is unchanged,
@@ -117,6 +117,21 @@ Theorem C18_over_memory_obs : forall c,
   NoDup (m_init c) -> obs_eqb (mm_obs c) (model_obs (m_case c)) = true.
 Proof. exact mm_obs_agrees. Qed.
 Print Assumptions C18_over_memory_obs.
+
+(* the tie theorem of the suite `auditable_memory` *)
+Theorem C18_over_memory_spec_ok : forall c, NoDup (m_init c) -> mspec_ok c (mm_obs c) = true.
+Proof. exact mm_spec_ok. Qed.
+Print Assumptions C18_over_memory_spec_ok.
+
+(* The verdict of the specification checker depends only on WHICH quads each observed
+   content holds, not on how it is listed: observation sequences whose members are
+   duplicate-free and pairwise hold the same quads are judged alike.  (So "the model's
+   observation is obs_eqb to the implementation's" and "the checker accepts the model's"
+   together imply "the checker accepts the implementation's".) *)
+Theorem C18_spec_respects_set_equality : forall c obs obs',
+  Forall2 (fun a b => qseteq a b /\ NoDup a /\ NoDup b) obs obs' -> spec_ok c obs = spec_ok c obs'.
+Proof. exact spec_ok_ext. Qed.
+Print Assumptions C18_spec_respects_set_equality.
 
 Example C18_over_memory_nonvacuous :
   let c := {| m_init := [((1, 2, 3), 7); ((4, 2, 3), 7)]%N;
